@@ -43,7 +43,7 @@
         assert!(was == (exp > 0 || s.len() == exp));
         kani::cover!(skip == 2, "cr lf");
     }
-//# ob name=tokenizer_new_trailing_newline fn=compiler::lexer::Tokenizer::new kind=bounded bound="all UTF-8 sources of length <= 4 bytes, keep_trailing_newline in {false, true}" stmt="Tokenizer::new removes from the end of the source exactly one LF and then one CR (so one trailing LF, CRLF or CR) unless keep_trailing_newline is set, and never anything else"
+//# ob name=tokenizer_new_trailing_newline fn=compiler::lexer::Tokenizer::new kind=bounded bound="all UTF-8 sources of length <= 4 bytes, keep_trailing_newline in {false, true}" stmt="Tokenizer::new removes from the end of the source exactly ONE trailing newline - CR LF, a lone LF or a lone CR - unless keep_trailing_newline is set, and never anything else (in particular LF CR at the end are two line endings: only the CR goes)"
     #[kani::proof]
     #[kani::unwind(7)]
     fn tokenizer_new_trailing_newline() {
@@ -54,8 +54,10 @@
         let got = t.source();
         let mut n = s.len();
         if !keep {
-            if n > 0 && b[n - 1] == b'\n' { n -= 1; }
-            if n > 0 && b[n - 1] == b'\r' { n -= 1; }
+            // from the statement ("one trailing newline of the template"), not from the code: written as the case analysis of the statement; the code's
+            // two independent tests (LF, then CR) turn out to be equivalent: "x\n\r" loses only the CR
+            if n > 0 && b[n - 1] == b'\n' { n -= 1; if n > 0 && b[n - 1] == b'\r' { n -= 1; } }
+            else if n > 0 && b[n - 1] == b'\r' { n -= 1; }
         }
         assert!(got.len() == n && got.as_ptr() == s.as_ptr());
         kani::cover!(!keep && n + 2 == s.len(), "crlf removed");
